@@ -302,12 +302,17 @@ where
             iter.nth(initial_skip - 1);
         }
 
-        // Set `remaining_y` to `0` if `width == 0` to prevent integer underflow in `next`.
-        let remaining_y = if size.width > 0 { size.height } else { 0 };
+        // The first row is started here, `remaining_y` only counts the rows after it. Both
+        // counters are set to `0` for zero sized images to prevent integer underflow in `next`.
+        let (remaining_x, remaining_y) = if size.width > 0 && size.height > 0 {
+            (size.width, size.height - 1)
+        } else {
+            (0, 0)
+        };
 
         Self {
             iter,
-            remaining_x: size.width,
+            remaining_x,
             width: size.width,
             remaining_y,
             row_skip,
